@@ -64,6 +64,9 @@ PROGRAMS = {
     'leftrec2': [(T.fun('p', T.atom('a')), T.TRUE), (T.fun('p', X), T.call(T.fun('p', X)))],
     'nat': [(T.fun('nat', T.atom('z')), T.TRUE), (T.fun('nat', T.fun('s', X)), T.call(T.fun('nat', X)))],
 }
+# the depth limit strikes while a findall/3 goal is being enumerated (infinitely many answers / left recursion inside findall)
+PROGRAMS['fa_nat'] = PROGRAMS['nat']
+PROGRAMS['fa_leftrec'] = PROGRAMS['leftrec']
 
 
 def goal_of(kind, n):
@@ -75,6 +78,10 @@ def goal_of(kind, n):
         return T.call(T.fun('add', P, Q, peano(n)))
     if kind in ('leftrec', 'leftrec2'):
         return T.call(T.fun('p', P))
+    if kind == 'fa_nat':
+        return T.call(T.fun('findall', Q, T.fun('nat', Q), P))
+    if kind == 'fa_leftrec':
+        return T.call(T.fun('findall', Q, T.fun('p', Q), P))
     return T.call(T.fun('nat', P))
 
 
@@ -205,11 +212,14 @@ def oracle_answers(ref, goal, diverges_ok):
 class Ctx(object):
     """program + query: engine, prepared query, oracle, depth profile (lazy)"""
 
-    def __init__(self, real, ref, goal, profilable, diverges_ok=False):
+    def __init__(self, real, ref, goal, profilable, diverges_ok=False, known=None):
         self.real = real
         self.goal = goal
         self.name, self.eargs, self.evars = prep_query(real, goal)
-        self.oracle, cut = oracle_answers(ref, goal, diverges_ok)
+        if known is not None:
+            self.oracle, cut = known        # closed form: (answers, search does not end)
+        else:
+            self.oracle, cut = oracle_answers(ref, goal, diverges_ok)
         self.complete = len(self.oracle) < ORACLE_N and not cut     # the oracle list is the whole answer sequence
         self.sto = bool(ref.sto)
         self.profilable = profilable
@@ -240,6 +250,11 @@ def check_point(ctx, limit, mode, k, pre):
         b, outcome, q = bounded_call(yp, ctx.name, ctx.eargs, proj, limit)
         after = sys.getrecursionlimit()
         left = VarTracker.bound(ctx.evars)
+        if limit + 200 > pre:
+            # C17 speaks of the QUERY variables.  Clause-internal variables (unreachable once the query is gone) are included
+            # only when the interpreter has head-room above the requested limit: with none, CPython finalises the aborted
+            # generator chain at the limit itself and may skip finalisers deep in the chain.
+            left = [v for v in ctx.evars if v._is_bound]
         alive = getattr(q, 'gi_frame', None) is not None
     finally:
         VarTracker.stop()
@@ -329,16 +344,25 @@ def draw_point(rng, nanswers=None):
     top = max(1, min(nanswers if nanswers is not None else 6, 12))
     k = rng.randint(1, top)
     pre = rng.choice((3000, 12000))
+    if rng.random() < 0.15:
+        # the caller asks for a limit that is not below the interpreter's current one
+        pre = 3000
+        limit = rng.choice((3000, 3400))
     return limit, mode, k, pre
 
 
 def deep_scenario(seed, i):
     rng = random.Random('c17/D/%d/%d' % (seed, i))
-    kind = rng.choice(('down', 'len', 'add', 'add', 'leftrec', 'leftrec2', 'nat', 'nat'))
+    kind = rng.choice(('down', 'len', 'add', 'add', 'leftrec', 'leftrec2', 'nat', 'nat', 'fa_nat', 'fa_leftrec'))
     n = 0
     if kind in ('down', 'len', 'add'):
         n = rng.choice(NS) if rng.random() < 0.7 else rng.randint(5, 300)
     limit, mode, k, pre = draw_point(rng, None if kind != 'add' else n + 1)
+    if limit >= 3000 and (kind not in ('down', 'len', 'add') or n > 60):
+        # a requested limit at or above the interpreter's: only small finite searches (what matters there is that the call still
+        # restores, closes and guards; driving CPython thousands of frames deep makes the harness itself unreliable)
+        kind, n = 'add', rng.randint(3, 30)
+        k = rng.randint(1, n + 1)
     return dict(driver='s_c17', family='D', program=kind, N=n, limit=limit, mode=mode, k=k, pre=pre)
 
 
@@ -355,7 +379,10 @@ def deep_ctx(kind, n):
         ref.check_sto = True
         ref.consult(PROGRAMS[kind])
         profilable = kind in ('nat', 'leftrec2') or (kind in ('down', 'len', 'add') and n <= 300)
-        c = Ctx(real, ref, goal_of(kind, n), profilable, diverges_ok=kind in ('leftrec', 'leftrec2', 'nat'))
+        # findall over a goal whose enumeration never ends has no answer at all, and its search does not end (closed form: the
+        # reference interpreter would copy ever larger terms up to its step limit)
+        c = Ctx(real, ref, goal_of(kind, n), profilable, diverges_ok=kind in ('leftrec', 'leftrec2', 'nat', 'fa_nat', 'fa_leftrec'),
+                known=([], True) if kind in ('fa_nat', 'fa_leftrec') else None)
         if kind in ('nat', 'leftrec2'):
             # the i-th answer is known in closed form: checked against the reference's first ORACLE_N, then extended
             closed = [(peano(i),) if kind == 'nat' else (T.atom('a'),) for i in range(600)]
